@@ -179,6 +179,46 @@ theorem C10_failure_body (sc : Scenario) (env : Env) (hg : sc.gone = false) (o :
       obtain ⟨hct, _, hbody⟩ := herr terr henc
       exact ⟨_, hbody, fallbackText_ne_nil _ _, Or.inr ⟨hct, msg_infix_fallbackText _ _⟩⟩
 
+/-- **The model meets the executable specification the driver judges the implementation with** (`failureWhy`,
+    Spec.lean), for every scenario: given a transcoder whose Status bodies decode back and that can encode a
+    status exactly when the specification says it is encodable (`encodable`: valid UTF-8 message; for JSON every
+    detail resolvable by the target and well-formed). The correspondence run checks both hypotheses on the real
+    protojson-backed transcoder in every case. -/
+theorem C10_failure_meets_spec (sc : Scenario) (env : Env) (hg : sc.gone = false) (o : Origin) (e : RawErr)
+    (ho : (serve sc env).origin = some o) (he : (serve sc env).err = some e)
+    (dec : Bytes → Option St)
+    (hlaw : ∀ st b, env.stEnc st = .ok b → dec b = some st ∧ b ≠ [])
+    (henc : ∀ m, negotiatedResp registry env.pm sc.accept = some m →
+      (env.stEnc (convert e)).toBool = encodable m.mime (convert e)) :
+    ∃ b, (serve sc env).body = .bytes b ∧
+      failureWhy e (serve sc env).bound (((negotiatedResp registry env.pm sc.accept).map (·.mime)).getD [])
+        (serve sc env).status (serve sc env).ct b ⟨dec b⟩ = none := by
+  obtain ⟨hs, hbd, hu, hb⟩ := C10_failure sc env hg o e ho he
+  cases hbo : o.bound with
+  | false =>
+    obtain ⟨hct, _, hbody⟩ := hu hbo
+    refine ⟨_, hbody, ?_⟩
+    have hinf : isInfix (convert e).msg ((convert e).msg ++ [10]) = true :=
+      (isInfix_iff _ _).2 (infix_append_right _ _ _ (List.infix_refl _))
+    simp [failureWhy, hs, hbd, hbo, hct, hinf]
+  | true =>
+    obtain ⟨m, hneg, hok, herr⟩ := hb hbo
+    have hE := henc m hneg
+    cases hstenc : env.stEnc (convert e) with
+    | ok data =>
+      obtain ⟨hct, _, hbody⟩ := hok data hstenc
+      obtain ⟨hd, hne⟩ := hlaw _ _ hstenc
+      refine ⟨_, hbody, ?_⟩
+      rw [hstenc] at hE
+      simp [failureWhy, hs, hbd, hbo, hct, hneg, ← hE, Except.toBool, hd, hne]
+    | error terr =>
+      obtain ⟨hct, _, hbody⟩ := herr terr hstenc
+      refine ⟨_, hbody, ?_⟩
+      rw [hstenc] at hE
+      have hinf : isInfix (convert e).msg (fallbackText (convert e) terr) = true :=
+        (isInfix_iff _ _).2 (msg_infix_fallbackText _ _)
+      simp [failureWhy, hs, hbd, hbo, hct, hneg, ← hE, Except.toBool, hinf, fallbackText_ne_nil]
+
 /-- **Success.** A call that does not fail answers 200 in the negotiated content type with the transcoded
     response value — the whole message or the field named by `response_body`. (A server stream that ends before
     its first message has no body and no Content-Type.) -/
@@ -218,6 +258,69 @@ theorem C10_415 (sc : Scenario) (env : Env) (h1 : sc.inj ≠ .router) (h2 : sc.i
   simp only [natBindErr, unsupportedMediaTypeErr] at hw ⊢
   simp [failResp, hw]
   decide
+
+/-! ### headers and trailers -/
+
+/-- `ProxyMDFilter.filterResponse` + `appendHeaders`: every value of an allow-listed metadata key appears in the
+    HTTP headers under the canonical form of `prefix+key` (values already there are kept). -/
+theorem C10_headers_allowed (allow : List Bytes) (pre : Bytes) (md h0 : MD) (k v : Bytes)
+    (hk : k ∈ allow) (hv : v ∈ mdGet md (lower k)) :
+    v ∈ mdGet (appendHeaders h0 (filterResponse allow pre md)) (canonicalHeaderKey (lower (pre ++ k))) :=
+  mem_headers_of_allowed allow pre md h0 k v hk hv
+
+/-- Unary calls that reach the target (success, target status, missing response, response that cannot be
+    encoded): allow-listed response headers appear as HTTP headers, and so do allow-listed trailers unless the
+    target misbehaved by sending a second message (`n ≥ 2`). This holds for error responses too. -/
+theorem C10_headers_unary (sc : Scenario) (env : Env) (t : RespTranscoder) (k v : Bytes) :
+    (k ∈ sc.allowH → v ∈ mdGet sc.hdr (lower k) →
+      v ∈ mdGet (serveUnary sc env t).hdrs (canonicalHeaderKey (lower (sc.prefH ++ k)))) ∧
+    (sc.n ≤ 1 → k ∈ sc.allowT → v ∈ mdGet sc.trl (lower k) →
+      v ∈ mdGet (serveUnary sc env t).hdrs (canonicalHeaderKey (lower (sc.prefT ++ k)))) := by
+  have hH : k ∈ sc.allowH → v ∈ mdGet sc.hdr (lower k) →
+      v ∈ mdGet (appendHeaders [] (headerMD sc)) (canonicalHeaderKey (lower (sc.prefH ++ k))) :=
+    fun hk hv => mem_headers_of_allowed _ _ _ _ _ _ hk hv
+  have hHT : k ∈ sc.allowH → v ∈ mdGet sc.hdr (lower k) →
+      v ∈ mdGet (appendHeaders (appendHeaders [] (headerMD sc)) (trailerMD sc)) (canonicalHeaderKey (lower (sc.prefH ++ k))) :=
+    fun hk hv => mem_appendHeaders _ _ _ _ (Or.inr (hH hk hv))
+  have hT : k ∈ sc.allowT → v ∈ mdGet sc.trl (lower k) →
+      v ∈ mdGet (appendHeaders (appendHeaders [] (headerMD sc)) (trailerMD sc)) (canonicalHeaderKey (lower (sc.prefT ++ k))) :=
+    fun hk hv => mem_headers_of_allowed _ _ _ _ _ _ hk hv
+  unfold serveUnary
+  repeat' split
+  all_goals simp only [(failResp_fields _ _ _ _ _).2.2.2]
+  all_goals first
+    | exact ⟨hHT, fun _ => hT⟩
+    | (refine ⟨?_, ?_⟩
+       · first | exact hHT | exact hH
+       · intro hn; first | exact hT | (exfalso; simp_all; omega))
+
+/-- Server-streaming calls: allow-listed response headers always appear as HTTP headers; allow-listed trailers
+    appear as HTTP headers when nothing was sent yet (`n = 0`), and as HTTP trailers after a successful stream. -/
+theorem C10_headers_stream (sc : Scenario) (env : Env) (t : RespTranscoder) (sse : Bool) (k v : Bytes) :
+    (k ∈ sc.allowH → v ∈ mdGet sc.hdr (lower k) →
+      v ∈ mdGet (serveStream sc env t sse).hdrs (canonicalHeaderKey (lower (sc.prefH ++ k)))) ∧
+    (k ∈ sc.allowT → v ∈ mdGet sc.trl (lower k) → (sc.n = 0 ∨ (serveStream sc env t sse).origin = none) →
+      v ∈ mdGet (serveStream sc env t sse).hdrs (canonicalHeaderKey (lower (sc.prefT ++ k))) ∨
+      v ∈ mdGet (serveStream sc env t sse).trls (canonicalHeaderKey (lower (sc.prefT ++ k)))) := by
+  have hH : k ∈ sc.allowH → v ∈ mdGet sc.hdr (lower k) →
+      v ∈ mdGet (appendHeaders [] (headerMD sc)) (canonicalHeaderKey (lower (sc.prefH ++ k))) :=
+    fun hk hv => mem_headers_of_allowed _ _ _ _ _ _ hk hv
+  have hHT : k ∈ sc.allowH → v ∈ mdGet sc.hdr (lower k) →
+      v ∈ mdGet (appendHeaders (appendHeaders [] (headerMD sc)) (trailerMD sc)) (canonicalHeaderKey (lower (sc.prefH ++ k))) :=
+    fun hk hv => mem_appendHeaders _ _ _ _ (Or.inr (hH hk hv))
+  have hT : k ∈ sc.allowT → v ∈ mdGet sc.trl (lower k) →
+      v ∈ mdGet (appendHeaders (appendHeaders [] (headerMD sc)) (trailerMD sc)) (canonicalHeaderKey (lower (sc.prefT ++ k))) :=
+    fun hk hv => mem_headers_of_allowed _ _ _ _ _ _ hk hv
+  have hT0 : k ∈ sc.allowT → v ∈ mdGet sc.trl (lower k) →
+      v ∈ mdGet (appendHeaders [] (trailerMD sc)) (canonicalHeaderKey (lower (sc.prefT ++ k))) :=
+    fun hk hv => mem_headers_of_allowed _ _ _ _ _ _ hk hv
+  unfold serveStream
+  repeat' split
+  all_goals simp only [(failResp_fields _ _ _ _ _).2.2.2, (failResp_fields _ _ _ _ _).1]
+  all_goals first
+    | exact ⟨hHT, fun hk hv _ => Or.inl (hT hk hv)⟩
+    | exact ⟨hH, fun hk hv _ => Or.inr (hT0 hk hv)⟩
+    | (refine ⟨hH, fun hk hv h => ?_⟩; exfalso; simp_all)
 
 /-! ### non-vacuity: concrete scenarios -/
 
